@@ -3,6 +3,7 @@ package bprops
 import (
 	"bytes"
 	"fmt"
+	"os"
 	"runtime"
 	"strings"
 	"sync"
@@ -51,7 +52,9 @@ type c17Unit struct {
 func init() {
 	table["C17"] = func(r *runner) {
 		runtime.GOMAXPROCS(16)
-		watchdog = 900 * time.Second
+		if os.Getenv("VERIF_WATCHDOG") == "" {
+			watchdog = 900 * time.Second
+		}
 		var us []*c17Unit
 		for _, it := range r.items {
 			s := subj.Registry[it.Index]
@@ -82,11 +85,13 @@ func init() {
 				c.Variant = "zip"
 			}
 			n := rapid.IntRange(4, 16).Draw(rt, "jobs")
+			haveDeep := false
 			for i := 0; i < n; i++ {
 				j := C17Job{Src: gen.LexInput(rt, u.m, 30), FailAt: -1}
 				in := gen.DrawParseInput(rt, u.c, u.d, 12, 3, 40)
-				if rapid.IntRange(0, 9).Draw(rt, "deep") == 0 {
+				if !haveDeep && rapid.IntRange(0, 9).Draw(rt, "deep") == 0 {
 					in.Toks = gen.DeepInput(rt, u.c)
+					haveDeep = true // one per case: long inputs are expensive under the race detector
 				}
 				for _, t := range in.Toks {
 					if t < 0 {
@@ -117,6 +122,7 @@ type c17Res struct {
 	toks []subj.Tok
 	key  string
 	msg  string
+	text string
 }
 
 func sameToks(a, b []subj.Tok) bool {
@@ -146,6 +152,7 @@ func evalC17(r *runner, u *c17Unit, c C17Case) string {
 		res.toks = lx.Scan(j.Src, nScans(j.Src))
 		o := sess.Parse(typed(ps, j.Toks), j.FailAt, true)
 		res.key, res.msg = obsKey(o), o.ErrString
+		res.text = o.Result.Short(4)
 		return res
 	}
 	// The concurrent rounds run FIRST, on whatever state the process is in: a
@@ -188,7 +195,7 @@ func evalC17(r *runner, u *c17Unit, c C17Case) string {
 				return fmt.Sprintf("grammar:\n%s\nvariant %q, %d goroutines, round %d: goroutine %d, job %d (source %q): token stream differs from the sequential run", u.src, c.Variant, c.Goroutines, round, g, i, c.Jobs[i].Src)
 			}
 			if res.key != want[i].key || res.msg != want[i].msg {
-				return fmt.Sprintf("grammar:\n%s\nvariant %q, %d goroutines, round %d: goroutine %d, job %d (tokens %v): concurrently\n  %s\n  %q\nalone\n  %s\n  %q", u.src, c.Variant, c.Goroutines, round, g, i, c.Jobs[i].Toks, res.key, res.msg, want[i].key, want[i].msg)
+				return fmt.Sprintf("grammar:\n%s\nvariant %q, %d goroutines, round %d: goroutine %d, job %d (tokens %v): concurrently\n  %s\n  %q\nalone\n  %s\n  %q", u.src, c.Variant, c.Goroutines, round, g, i, c.Jobs[i].Toks, res.text+" "+res.key, res.msg, want[i].text+" "+want[i].key, want[i].msg)
 			}
 		}
 	}
